@@ -14,7 +14,8 @@ RULE = (
     "enumeration): the model set of And(result.constraints) equals the model set of the documented formula - "
     "OR_i(cond_i AND C_i) for merge, ancestor AND OR_i cond_i with an ancestor, AND_j C_j for combine; for split the "
     "parts have pairwise disjoint variable sets, every top-level conjunct of s occurs in the parts, at least once and at most as often as in s (non-composite "
-    "classes) and the conjunction of the parts is equivalent to the original; then 6 queries on the result are judged "
+    "classes), the conjunction of the parts is equivalent to the original and every satisfiable part of an exact class "
+    "answers eval of one of its variables with values that are solutions of the part; then 6 queries on the result are judged "
     "against the reference over the formula (exact classes), which catches carried-over caches.  Merge conditions are "
     "constants, constraints over the same variables, and guards over a fresh variable.  Non-trivial: at least two "
     "non-empty constraint sets involved; distinct by (operation, class, constraint sets, conditions) hash."
@@ -178,6 +179,38 @@ def run_shard(spec, res):
                     # de-duplicates when a part is filled - so 1 <= occurrences in parts <= occurrences in s
                     if set(want) != set(got) or any(not 1 <= got[h] <= want[h] for h in want):
                         res.violation({"kind": "setop", "what": "split-conjunct-multiset-differs", "config": cfg, "constraints": base.cons, "before": [repr(x)[:120] for x in before], "parts": [[repr(x)[:120] for x in p.constraints] for p in parts]})
+                if exact:
+                    # (last: eval adds constraints to the part)  the parts are usable solvers: a part whose constraints are satisfiable yields a value for one of
+                    # its own variables (regression for the fixed finding split-discards-trivial-model: the part
+                    # [a == 0] answered eval(a, 2) with ())
+                    for p in parts:
+                        leaves = [x for cn in p.constraints for x in cn.leaf_asts() if x.op == "BVS"]
+                        if not leaves:
+                            continue
+                        P = z3.And(*[TRUE] + [sem.claripy_z3(x) for x in p.constraints])
+                        chk = z3.Solver(ctx=c)
+                        chk.set("timeout", tmo)
+                        chk.add(P)
+                        if chk.check() != z3.sat:
+                            continue
+                        v = leaves[0]
+                        try:
+                            got = p.eval(v, 2)
+                        except claripy.errors.ClaripyError as ex:
+                            res.count("split_part_eval_raised:" + type(ex).__name__)
+                            continue
+                        res.count("judged:split_part_eval")
+                        if len(got) == 0:
+                            res.violation({"kind": "setop", "what": "split-part-eval-empty-although-satisfiable", "config": cfg, "constraints": base.cons, "part": [repr(x)[:120] for x in p.constraints], "variable": repr(v)})
+                            break
+                        for val in got:
+                            chk.push()
+                            chk.add(sem.claripy_z3(v) == z3.BitVecVal(val, v.length, ctx=c))
+                            ok = chk.check()
+                            chk.pop()
+                            if ok == z3.unsat:
+                                res.violation({"kind": "setop", "what": "split-part-eval-value-not-a-solution", "config": cfg, "constraints": base.cons, "part": [repr(x)[:120] for x in p.constraints], "variable": repr(v), "observed": val})
+                                break
                 continue
             # queries on the merged / combined solver against the documented formula
             if exact:
